@@ -3,7 +3,7 @@ import sys
 
 from .. import taps
 from ..core import canon_hash
-from ..direct import DirectRun, gen_history
+from ..direct import DirectRun, gen_deep_cancel_history, gen_history
 from ..tracker import BookTracker
 
 RULE = (
@@ -34,6 +34,10 @@ def budget(tier):
 
 
 def gen_case(rng, tier, idx):
+    if idx % 10 in (5, 6, 7, 8):
+        c = gen_deep_cancel_history(rng, tier)
+        c["drive"] = "direct"
+        return c
     if idx % 10 == 9:
         from ..runnerdrive import gen_runner_case
 
@@ -129,6 +133,8 @@ class C03Monitor(BookTracker):
             else:
                 res.count("postconditions_evaluated")
                 ok = (not top_b_market) and (not top_s_market) and bbp is not None and bsp is not None and bbp < bsp
+                # the depth views are sorted by price: their first keys are best prices too
+                ok = ok and next(iter(bb)) < next(iter(sb))
                 if not ok:
                     res.violation(
                         "clears", "executable-pair-left-after-round",
